@@ -120,7 +120,7 @@ def build_native(crate, crate_dir, harness, logdir):
     return keep, log
 
 
-def sampled_native(crate, crate_dir, harness, logdir, seeds=range(0, 400)):
+def sampled_native(crate, crate_dir, harness, logdir, seeds=range(0, 6000)):
     """Run the harness natively with sampled concrete values for every kani::any().  Returns
     (reproduced, detail, seed, trace)."""
     exe, log = build_native(crate, crate_dir, harness, logdir)
